@@ -70,11 +70,21 @@ theorem mixed_rejected (s r a : List EKind) (h1 : EKind.str ∈ s ++ r ++ a) (h2
 theorem illtyped_rejected (o : PObj) (name : String) (vid : Nat) (ks : List EKind) (isDict : Bool)
     (hd : isDefField name = true) (hk : EKind.other ∈ ks) :
     setattr o name vid (.seq ks) isDict = .error .creation ∧
-    setattr o name vid .scalar isDict = .error .typeError := by
+    setattr o name vid .scalar isDict = .error .typeError ∧
+    setattr o name vid (.iter ks) isDict = .error .creation := by
   have : ks.any (· == EKind.other) = true := List.any_eq_true.2 ⟨_, hk, by decide⟩
-  constructor
+  refine ⟨?_, ?_, ?_⟩
   · simp [setattr, checkField, hd, this]
   · simp [setattr, checkField, hd]
+  · simp [setattr, checkField, hd, this]
+
+/-- a one-shot iterator that passes the element check is stored exhausted: the policy then reports the type of a
+policy without elements in that field -/
+theorem iterator_counts_as_empty (o : PObj) (name : String) (vid : Nat) (ks : List EKind) (isDict : Bool)
+    (hk : ks.any (· == EKind.other) = false) :
+    setattr o name vid (.iter ks) isDict = setattr o name vid (.seq []) isDict := by
+  unfold setattr checkField
+  by_cases hd : isDefField name = true <;> simp [hd, hk, kindsOf]
 
 theorem context_nondict_rejected (o : PObj) (vid : Nat) (fv : FVal) :
     setattr o "context" vid fv false = .error .creation := by
